@@ -44,6 +44,7 @@ const (
 	LHeap2                   // heap[arr][idx]       (slice / array element)
 	LStruct                  // a struct living at Ref (fields are LHeap1 locations keyed by Ref)
 	LCellPath                // a field (path) inside a non-escaping struct local kept as a value cell
+	LBase                    // heap[r] for every interior reference r whose base object is Ref (all elements of a slice of structs)
 )
 
 type Loc struct {
